@@ -1321,7 +1321,7 @@ def load_findings(chk):
     # TEMPORARY until the lead has merged build/kf-C03.json into known_findings.json: entries proposed there
     # whose id is not yet listed are used as well (drop this block after merging)
     p = os.path.join(vlib.VERIF, "build", "kf-C03.json")
-    if os.path.exists(p):
+    if os.path.exists(p) and os.environ.get("VERIF_KF_DEV"):  # development only: proposals not yet merged into known_findings.json
         have = set(f["id"] for f in chk.findings)
         chk.findings = list(chk.findings) + [f for f in json.load(open(p)) if f["id"] not in have]
     return {f["id"]: f for f in chk.findings if f.get("status") == "known"}
